@@ -4,9 +4,11 @@ go 1.23.0
 
 require github.com/segmentio/kafka-go v0.0.0
 
-require (
-	github.com/klauspost/compress v1.15.9 // indirect
-	github.com/pierrec/lz4/v4 v4.1.15 // indirect
-)
-
 replace github.com/segmentio/kafka-go => /repo
+
+require (
+	github.com/eapache/go-xerial-snappy v0.0.0-20180814174437-776d5712da21
+	github.com/golang/snappy v0.0.1
+	github.com/klauspost/compress v1.15.9
+	github.com/pierrec/lz4/v4 v4.1.15
+)
